@@ -74,6 +74,8 @@ def gen_random_script(rng, ty, nkeys, nops, full_obs):
         else:
             seq = [(rng.choice(["ins", "ins", "rem"]), rng.randint(1, nkeys)) for _ in range(ln)]
         for op, k in seq:
+            if op == "ins" and rng.random() < 0.04:
+                lines.append("insfail %d" % k)      # memory runs out for the node (only carried out when the key is not stored)
             lines.append("%s %d" % (op, k))
             cnt += 1
             if full_obs:
